@@ -1166,8 +1166,8 @@ func (c *ArrayConverter) To(obj Object) (interface{}, error) {
 	if !ok {
 		return nil, errz.TypeErrorf("type error: expected a list (%s given)", obj.Type())
 	}
-	if len(list.items) != c.len {
-		return nil, errz.TypeErrorf("type error: expected a list of length %d (length %d given)", c.len, len(list.items))
+	if len(list.items) > c.len {
+		return nil, errz.TypeErrorf("type error: expected a list of at most %d items (%d given)", c.len, len(list.items))
 	}
 	array := reflect.New(reflect.ArrayOf(c.len, c.valueType))
 	arrayElem := array.Elem()
